@@ -46,7 +46,10 @@ Multi == <<
   \* a future whose body throws, awaited, the error looked at
   "(def fu (future (throw \"boom\"))) (trace! (try @fu (catch e (str \"job failed: \" e))))",
   \* a completed future as the value of a top-level form (the REPL prints it), awaited again afterwards
-  "(def job (future (+ 40 2))) (def w @job) job (trace! (list w @job)) [job] (trace! @job)" >>
+  "(def job (future (+ 40 2))) (def w @job) job (trace! (list w @job)) [job] (trace! @job)",
+  \* strings holding line breaks (LF, CR LF), blanks before a line break, a line that looks like a preamble line
+  "(def ml \"a  \r\\nb\\n c\") (trace! ml) (trace! (count ml)) (trace! (split ml \"\\n\"))",
+  "(trace! \"x \\n;; $A 1\\n\\n;; $B\r\\n\") (trace! (count \"\r\\n\"))" >>
 
 CtxForms == C01CtxForms
 G == C01G
@@ -58,14 +61,18 @@ ASSUME TLCSet(4, Norm(CountTab(G, MaxSize, <<>>)))
 ASSUME TLCSet(5, Norm([k \in 1..Len(Multi) |-> ReadAll(Multi[k])]))
 ASSUME PrintT("CTX " \o ToJson([name |-> "c01", forms |-> CtxForms]))
 
-\* token texts of a form
-RECURSIVE Toks(_)
-Toks(v) ==
-  CASE v.t = "list" -> <<"(">> \o Flatten([k \in 1..Len(v.xs) |-> Toks(v.xs[k])]) \o <<")">>
-    [] v.t = "vec" -> <<"[">> \o Flatten([k \in 1..Len(v.xs) |-> Toks(v.xs[k])]) \o <<"]">>
+\* token texts of a form; raw = TRUE: a string is written as a RAW string literal (its characters as they are,
+\* line breaks included) whenever it does not hold the delimiter
+RECURSIVE HasCh(_, _, _)
+HasCh(s, c, i) == i <= Len(s) /\ (SubSeq(s, i, i) = c \/ HasCh(s, c, i + 1))
+RECURSIVE ToksR(_, _)
+ToksR(v, raw) ==
+  CASE v.t = "list" -> <<"(">> \o Flatten([k \in 1..Len(v.xs) |-> ToksR(v.xs[k], raw)]) \o <<")">>
+    [] v.t = "vec" -> <<"[">> \o Flatten([k \in 1..Len(v.xs) |-> ToksR(v.xs[k], raw)]) \o <<"]">>
     [] v.t = "map" -> LET ks == SetToSeq(DOMAIN v.m) IN
-                        <<"{">> \o Flatten([k \in 1..Len(ks) |-> <<PrStr(KeyVal(ks[k]))>> \o Toks(v.m[ks[k]])]) \o <<"}">>
+                        <<"{">> \o Flatten([k \in 1..Len(ks) |-> <<PrStr(KeyVal(ks[k]))>> \o ToksR(v.m[ks[k]], raw)]) \o <<"}">>
     [] v.t = "set" -> LET ks == SetToSeq(DOMAIN v.m) IN <<"#{">> \o [k \in 1..Len(ks) |-> PrStr(KeyVal(ks[k]))] \o <<"}">>
+    [] v.t = "str" /\ raw /\ ~HasCh(v.s, "¬", 1) -> <<"¬" \o v.s \o "¬">>
     [] OTHER -> <<PrStr(v)>>
 
 Layouts == <<
@@ -80,9 +87,15 @@ Layouts == <<
   [n |-> "module",     h |-> ";; $MODULE mymod\n",   sep |-> " ",                tr |-> "\n"],
   [n |-> "tabs",       h |-> "\t",                   sep |-> "\t",               tr |-> "\t"],
   [n |-> "quote-cmt",  h |-> "",                     sep |-> " ; \" ¬ (\n",      tr |-> "\n"],
-  [n |-> "mixed",      h |-> " \r\n",                sep |-> "  \n ; x\n\r\n",   tr |-> " "] >>
+  [n |-> "mixed",      h |-> " \r\n",                sep |-> "  \n ; x\n\r\n",   tr |-> " "],
+  \* strings as raw string literals: the line breaks and blanks they hold are part of the TEXT
+  [n |-> "raw",        h |-> "",                     sep |-> " ",                tr |-> "\n"],
+  [n |-> "raw-crlf",   h |-> "; c\r\n",              sep |-> "\r\n",             tr |-> "\r\n"],
+  \* first lines that look like the preamble of READWithPreamble but are comments to READ / REPL / load-file
+  [n |-> "dollar-cmt", h |-> ";; $Id: prog.lisp 42 $\n;; $x 10\n", sep |-> " ",      tr |-> "\n"] >>
 
-RenderForm(v, L) == Join(Toks(v), L.sep)
+IsRaw(L) == L.n \in {"raw", "raw-crlf"}
+RenderForm(v, L) == Join(ToksR(v, IsRaw(L)), L.sep)
 Render(forms, L) == L.h \o Join([k \in 1..Len(forms) |-> RenderForm(forms[k], L)], L.sep) \o L.tr
 
 VARIABLES src, sz, idx, lay, ph
